@@ -176,6 +176,9 @@ def main():
         for mc in [None] + list(range(0, n + 2)):
             run_one("map", n, mc, list(range(n)), shape="inputpath")
             run_one("map", n, mc, list(reversed(range(n))), shape="inputpath")
+    # a fan-out larger than any inline-Map limit one might think of: every item is launched, with and without MaxConcurrency
+    for mc in (None, 0, 50):
+        run_one("map", 45, mc, list(reversed(range(45))))
     # sampled: larger fan-outs, other iterator shapes, random schedules of everything
     for _ in range(400 if thorough else 60):
         n = rng.randrange(0, 9 if thorough else 7)
